@@ -68,6 +68,25 @@ func dischargeAll(s *Solver, obls []*Obligation, workers int) []OblOutcome {
 	}
 	close(ch)
 	wg.Wait()
+	// obligations that were not discharged under load are retried alone, with a doubled time limit, before they are
+	// reported (solver time-outs under CPU contention must not become alarms)
+	for i, oc := range out {
+		if oc.O.Static != "" || oc.O.Kind == "canary" || oc.Res.Status == "unsat" {
+			continue
+		}
+		s2 := newSolver(s.outDir, 2*s.fullT)
+		s2.quickT = s.fullT
+		r := s2.solve(oc.O, false)
+		for k, v := range s2.totalSecs {
+			s.totalSecs[k] += v
+		}
+		for k, v := range s2.counts {
+			s.counts[k] += v
+		}
+		if r.Status == "unsat" || (r.Status == "sat" && oc.Res.Status != "sat") {
+			out[i] = OblOutcome{oc.O, r}
+		}
+	}
 	return out
 }
 
@@ -143,7 +162,7 @@ func cmdUnits(args []string) {
 			fmt.Printf("%-60s ASSUMED (%s)\n", u.Name, res.Skipped)
 			continue
 		}
-		outs := dischargeAll(s, res.Obls, 16)
+		outs := dischargeAll(s, res.Obls, 12)
 		agg := aggregate(outs)
 		nOK, nFail, nUnk, nVac := 0, 0, 0, 0
 		for _, a := range agg {
